@@ -3,7 +3,7 @@ plus the trace-level statement of the property on the implementation's own trace
 import os, sys, time, json, hashlib
 import vlib
 
-SIMDRV_SRC = ["simdrv.cpp", "simdrv_world.cpp", "simdrv_net.cpp"]
+SIMDRV_SRC = ["simdrv.cpp", "simdrv_world.cpp", "simdrv_net.cpp", "simdrv_http.cpp", "simdrv_proxy.cpp", "simdrv_socks.cpp", "simdrv_srv.cpp"]
 
 
 def split_batch(text):
